@@ -479,6 +479,12 @@ func (l *lifeRun) checkStable(hasOnRequest, hasOnConnect, hasOnDisconnect bool, 
 				e.FailP("C09", "disconnect-exactly-once", "disconnect-lost", "the peer closed a connection whose OnConnect %s and nobody else closed it, but OnDisconnect ran %d times", map[bool]string{true: "had run", false: "is not configured"}[hasOnConnect], l.discCount)
 			}
 		}
+		// the same when the user closed as well, but only after the peer's hang-up had closed the connection
+		if userClosed && l.firstClosedBy == poller && peerDone && (ending == 1 || ending == 2 || ending == 3) && !l.detached {
+			if (hasOnConnect && l.connEnd >= 0 || !hasOnConnect) && l.discCount != 1 {
+				e.FailP("C09", "disconnect-exactly-once", "disconnect-lost/user-closed-afterwards", "the peer's hang-up closed a connection whose OnConnect %s (a user Close came later), but OnDisconnect ran %d times", map[bool]string{true: "had run", false: "is not configured"}[hasOnConnect], l.discCount)
+			}
+		}
 	}
 	// C05: once some closer has acted (user close, or peer close with callbacks configured) the
 	// close callbacks have run
